@@ -22,10 +22,11 @@ PLATFORMS = {
     "youtube": {
         "hosts": ["www.youtube.com", "youtube.com", "m.youtube.com", "youtu.be", "www.youtube.fr", "gaming.youtube.com"],
         "segs": ["watch", "embed", "v", "video", "shorts", "channel", "user", "c", "playlist", "results", "@handle", "handle", VID,
-                 "short", VID + "xx", CHAN, "", "redirect"],
+                 "short", VID + "xx", CHAN, "", "redirect", "@"],
         "queries": ["", "?v=" + VID, "?v=", "?v", "?v=short", "?list=PL123", "?v=" + VID + "&list=PL123", "?list=PL1&v=" + VID,
                     "?next=%2Fwatch%3Fv%3D" + VID, "?feature=share", "?v=" + VID + "xxxx", "?u=%2Fwatch%3Fv%3D" + VID,
-                    "?q=http%3A%2F%2Fb.com", "?v=" + VID + "&v=other", "?list=PL1#/watch?v=aaaaaaaaaaa"],
+                    "?q=http%3A%2F%2Fb.com", "?v=" + VID + "&v=other", "?list=PL1#/watch?v=aaaaaaaaaaa",
+                    "?q=x&next=%2Fwatch%3Fv%3Dabc", "?q=x&next=%2Fwatch%3Fv%3D" + VID + "toolong"],
         "frags": ["", "#!/user", "#/watch?v=" + VID, "#t=10", "#/watch?v=bad"],
         "opts": [{}, {"fix_common_mistakes": False}],
     },
@@ -34,7 +35,7 @@ PLATFORMS = {
         "segs": ["i", "lists", "status", "statuses", "home", "explore", "hashtag", "search", "user", "@user", "User", "123456",
                  "intent", "", "messages"],
         "queries": ["", "?lang=fr", "?s=20"],
-        "frags": ["", "#!/user", "#!/user/status/123", "#!", "#!/", "#!/i", "#x", "#!/i/lists", "#!user"],
+        "frags": ["", "#!/user", "#!/user/status/123", "#!", "#!/", "#!/i", "#x", "#!/i/lists", "#!user", "#!#!/user", "#" + "!#" * 450 + "!/user"],
         "opts": [{}],
     },
     "instagram": {
